@@ -2,6 +2,8 @@
 // closed by "END".  Doubles are printed as C99 hex floats.
 //   C                              enum constants the Python side and the Coq model rely on
 //   K type datatype cutoff dim x.. apply_cutoff (the static function of engine_sensor.c) on a patched model
+//   W seed nrep                    touch scene: plane, box on it, box on the box, thin touch zones in front of / behind the
+//                                  contact points on all three bodies (same reply format as M)
 //   M seed feat nbody nrep         mjgen model + cameras + probe geoms/sites + sensors of every kind that
 //                                  can be instantiated through mjSpec here, in shuffled order; per
 //                                  repetition a random state (optionally advanced by some mj_step),
@@ -594,10 +596,77 @@ static int quat_of(const mjModel* m, const mjData* d, int ot, int id, mjtNum* q)
   }
 }
 
+// ---------------------------------------------------------------- touch scene: thin sensor slabs in front of / behind the contact points
+// floor plane (world, geom 0), box A on it (penetrating by d1), box B on A (penetrating by d2): the world and A are
+// contact body 1, A and B are contact body 2.  On every body two thin slabs (box / ellipsoid / cylinder) per contact
+// plane, one shifted along the direction leaving the body (documented re-projection: counted) and one shifted into
+// the body (not counted), plus enclosing zones.
+static double TS_d1, TS_d2, TS_hzA, TS_hzB;
+static void add_slab(mjSpec* s, mjsBody* b, mjg_rng* r, const char* name, double zc, double tz, double ext) {
+  mjsSite* st = mjs_addSite(b, NULL); mjs_setName(st->element, name);
+  int k = mjg_int(r, 3);
+  st->type = k == 0 ? mjGEOM_BOX : k == 1 ? mjGEOM_ELLIPSOID : mjGEOM_CYLINDER;
+  if (k == 2) { st->size[0] = ext; st->size[1] = tz; st->size[2] = tz; } else { st->size[0] = ext; st->size[1] = ext * mjg_range(r, 0.9, 1.2); st->size[2] = tz; }
+  st->pos[0] = mjg_range(r, -0.01, 0.01); st->pos[1] = mjg_range(r, -0.01, 0.01); st->pos[2] = zc;
+  double ax = mjg_range(r, -0.004, 0.004), ay = mjg_range(r, -0.004, 0.004), yaw = mjg_range(r, -3, 3);   // small tilt, any yaw
+  double q[4] = {cos(yaw / 2), 0, 0, sin(yaw / 2)}, t[4] = {1, ax / 2, ay / 2, 0}, o[4];
+  o[0] = q[0] * t[0] - q[1] * t[1] - q[2] * t[2] - q[3] * t[3]; o[1] = q[0] * t[1] + q[1] * t[0] + q[2] * t[3] - q[3] * t[2];
+  o[2] = q[0] * t[2] - q[1] * t[3] + q[2] * t[0] + q[3] * t[1]; o[3] = q[0] * t[3] + q[1] * t[2] - q[2] * t[1] + q[3] * t[0];
+  double n = sqrt(o[0] * o[0] + o[1] * o[1] + o[2] * o[2] + o[3] * o[3]); for (int i = 0; i < 4; i++) st->quat[i] = o[i] / n;
+}
+static mjModel* build_touch_scene(uint64_t seed) {
+  mjg_rng R = { seed * 313 + 11 }; mjg_rng* r = &R;
+  mjSpec* s = mj_makeSpec();
+  mjsBody* world = mjs_findBody(s, "world");
+  mjsGeom* fl = mjs_addGeom(world, NULL); fl->type = mjGEOM_PLANE; fl->size[0] = fl->size[1] = 5; fl->size[2] = 0.1; mjs_setName(fl->element, "floor");
+  double ax = mjg_range(r, 0.08, 0.15), ay = mjg_range(r, 0.08, 0.15), hzA = mjg_range(r, 0.05, 0.1);
+  double bx = ax * mjg_range(r, 0.5, 0.8), by = ay * mjg_range(r, 0.5, 0.8), hzB = mjg_range(r, 0.04, 0.08);
+  double d1 = mjg_range(r, 0.004, 0.016), d2 = mjg_range(r, 0.004, 0.016);
+  TS_d1 = d1; TS_d2 = d2; TS_hzA = hzA; TS_hzB = hzB;
+  mjsBody* A = mjs_addBody(world, NULL); mjs_setName(A->element, "A"); A->pos[2] = hzA - d1;
+  { mjsJoint* j = mjs_addJoint(A, NULL); j->type = mjJNT_FREE; mjsGeom* g = mjs_addGeom(A, NULL); g->type = mjGEOM_BOX; g->size[0] = ax; g->size[1] = ay; g->size[2] = hzA; mjs_setName(g->element, "gA"); }
+  mjsBody* B = mjs_addBody(world, NULL); mjs_setName(B->element, "B"); B->pos[2] = 2 * hzA - d1 + hzB - d2;
+  { mjsJoint* j = mjs_addJoint(B, NULL); j->type = mjJNT_FREE; mjsGeom* g = mjs_addGeom(B, NULL); g->type = mjGEOM_BOX; g->size[0] = bx; g->size[1] = by; g->size[2] = hzB; mjs_setName(g->element, "gB"); }
+  // contact planes (local z of the contact points): world -d1/2 (leaving direction +z); A bottom -hzA + d1/2 (leaving -z);
+  // A top hzA - d2/2 (leaving +z); B bottom -hzB + d2/2 (leaving -z)
+  struct { mjsBody* b; double z; int dir; const char* tag; } pl[4] = {{world, -d1 / 2, 1, "w"}, {A, -hzA + d1 / 2, -1, "ab"}, {A, hzA - d2 / 2, 1, "at"}, {B, -hzB + d2 / 2, -1, "bb"}};
+  nreq = 0; ngroup = 0; for (int g = 0; g < MAXGROUP; g++) for (int k = 0; k < 16; k++) grp_idx[g][k] = -1;
+  for (int k = 0; k < 4; k++) for (int side = 0; side < 2; side++) {
+    double tz = mjg_range(r, 0.0008, 0.003), gap = mjg_range(r, 0.003, 0.02);
+    double zc = pl[k].z + (side == 0 ? 1 : -1) * pl[k].dir * (tz + gap);   // side 0: shifted out of the body, side 1: into the body
+    char n[24]; snprintf(n, sizeof(n), "ts_%s_%s", pl[k].tag, side == 0 ? "out" : "in");
+    add_slab(s, pl[k].b, r, n, zc, tz, 0.3);
+    req(mjSENS_TOUCH, mjOBJ_SITE, n, 0, NULL, side == 0 && mjg_chance(r, 0.3) ? mjg_range(r, 1, 50) : 0, -1, 0);
+  }
+  // enclosing zones and a zone that straddles the contact plane
+  { mjsSite* st = mjs_addSite(world, NULL); mjs_setName(st->element, "ts_w_big"); st->type = mjGEOM_BOX; st->size[0] = st->size[1] = 0.4; st->size[2] = 0.05; req(mjSENS_TOUCH, mjOBJ_SITE, "ts_w_big", 0, NULL, 0, -1, 0); }
+  { mjsSite* st = mjs_addSite(A, NULL); mjs_setName(st->element, "ts_a_big"); st->type = mjGEOM_SPHERE; st->size[0] = 0.5; req(mjSENS_TOUCH, mjOBJ_SITE, "ts_a_big", 0, NULL, 0, -1, 0); }
+  { mjsSite* st = mjs_addSite(B, NULL); mjs_setName(st->element, "ts_b_big"); st->type = mjGEOM_CAPSULE; st->size[0] = 0.3; st->size[1] = 0.2; req(mjSENS_TOUCH, mjOBJ_SITE, "ts_b_big", 0, NULL, 0, -1, 0); }
+  { mjsSite* st = mjs_addSite(A, NULL); mjs_setName(st->element, "ts_a_half"); st->type = mjGEOM_BOX; st->size[0] = ax * 0.6; st->size[1] = 0.4; st->size[2] = 0.01; st->pos[0] = ax * 0.6; st->pos[2] = -hzA + d1 / 2; req(mjSENS_TOUCH, mjOBJ_SITE, "ts_a_half", 0, NULL, 0, -1, 0); }
+  for (int i = 0; i < nreq; i++) {
+    Req* q = &reqs[i]; mjsSensor* sn = mjs_addSensor(s); char n[24]; snprintf(n, sizeof(n), "c28s%d", i); mjs_setName(sn->element, n);
+    sn->type = (mjtSensor)q->type; sn->objtype = (mjtObj)q->ot; mjs_setString(sn->objname, q->on); sn->cutoff = q->cutoff;
+  }
+  mjModel* m = mj_compile(s, NULL);
+  if (!m) fprintf(stderr, "c28: touch scene compile failed: %s\n", mjs_getError(s));
+  mj_deleteSpec(s);
+  return m;
+}
+static void touch_state(const mjModel* m, mjData* d, mjg_rng* r, int rep) {
+  // boxes upright with a yaw, small lateral offsets, penetration depths varied by +-25 %
+  for (int b = 0; b < 2; b++) {
+    int a = m->jnt_qposadr[b]; double yaw = rep == 0 ? 0 : mjg_range(r, -3, 3);
+    d->qpos[a] = mjg_range(r, -0.01, 0.01); d->qpos[a + 1] = mjg_range(r, -0.01, 0.01);
+    d->qpos[a + 3] = cos(yaw / 2); d->qpos[a + 4] = 0; d->qpos[a + 5] = 0; d->qpos[a + 6] = sin(yaw / 2);
+  }
+  double d1 = TS_d1 * (rep == 0 ? 1 : mjg_range(r, 0.75, 1.25)), d2 = TS_d2 * (rep == 0 ? 1 : mjg_range(r, 0.75, 1.25));
+  d->qpos[m->jnt_qposadr[0] + 2] = TS_hzA - d1; d->qpos[m->jnt_qposadr[1] + 2] = 2 * TS_hzA - d1 + TS_hzB - d2;
+}
+
 static void position_only(const mjModel* m, mjData* d) { mj_fwdPosition(m, d); mj_sensorPos(m, d); }
 
-static void run_model(uint64_t seed, unsigned feat, int nbody, int nrep) {
-  mjModel* m = build(seed, feat, nbody);
+static void run_model(uint64_t seed, unsigned feat, int nbody, int nrep, int scene) {
+  mjModel* m = scene ? build_touch_scene(seed) : build(seed, feat, nbody);
   if (!m) { printf("FAIL compile\nEND\n"); return; }
   mjcb_sensor = user_cb;
   mjData* d = mj_makeData(m); mjData* d2 = mj_makeData(m);
@@ -613,9 +682,9 @@ static void run_model(uint64_t seed, unsigned feat, int nbody, int nrep) {
   mjtNum* buf = (mjtNum*)malloc(sizeof(mjtNum) * (maxdim + 16));
   for (int rep = 0; rep < nrep; rep++) {
     mj_resetData(m, d);
-    mjg_random_state(m, d, r, rep == 0 ? 0.0 : mjg_range(r, 0.2, 3.0));
+    if (scene) touch_state(m, d, r, rep); else mjg_random_state(m, d, r, rep == 0 ? 0.0 : mjg_range(r, 0.2, 3.0));
     d->time = mjg_range(r, 0, 5);
-    int nstep = (rep % 3 == 2) ? 5 + mjg_int(r, 120) : 0;
+    int nstep = (!scene && rep % 3 == 2) ? 5 + mjg_int(r, 120) : 0;
     mjg_nwarning = 0;
     int err = 0;
     if (MJG_TRY) {
@@ -633,6 +702,7 @@ static void run_model(uint64_t seed, unsigned feat, int nbody, int nrep) {
     // canary (a): every entry of sensordata was written by mj_forward
     int uncovered = 0; for (int k = 0; k < m->nsensordata; k++) if (d->sensordata[k] == CAN) uncovered++;
     // per sensor
+    touch_inside = touch_reproj = touch_wrongdir = 0;
     for (int i = 0; i < m->nsensor; i++) {
       mjtNum scl; const char* kind;
       int ne = expected(m, d, i, e, &scl, &kind);
@@ -667,6 +737,7 @@ static void run_model(uint64_t seed, unsigned feat, int nbody, int nrep) {
       if (memcmp(buf + 8, d->sensordata + m->sensor_adr[i], sizeof(mjtNum) * dim)) recompute_mismatch++;
     }
     printf("CAN %d %d %d %d %d\n", uncovered, stage_viol, stage_mismatch, pad_viol, recompute_mismatch);
+    printf("TCH %d %d %d\n", touch_inside, touch_reproj, touch_wrongdir);
     // finite differences along the motion: d/dt framepos = framelinvel, d/dt framequat -> frameangvel (same object and reference)
     {
       mjtNum h = 1e-6;
@@ -756,7 +827,11 @@ int main(void) {
     } else if (line[0] == 'M') {
       unsigned long long seed; unsigned feat; int nbody, nrep;
       if (sscanf(line + 1, "%llu %u %d %d", &seed, &feat, &nbody, &nrep) != 4) { printf("FAIL parse\nEND\n"); continue; }
-      run_model(seed, feat, nbody, nrep);
+      run_model(seed, feat, nbody, nrep, 0);
+    } else if (line[0] == 'W') {
+      unsigned long long seed; int nrep;
+      if (sscanf(line + 1, "%llu %d", &seed, &nrep) != 2) { printf("FAIL parse\nEND\n"); continue; }
+      run_model(seed, 0, 2, nrep, 1);
     }
     fflush(stdout);
   }
